@@ -41,7 +41,7 @@ if [ $res = ok ]; then
   # 4. suite with patch
   suite > "$OUT/suite_patched.txt"
   if [ ! -f /tmp/confirm/suite_clean.txt ]; then echo "missing /tmp/confirm/suite_clean.txt"; fi
-  if diff -q /tmp/confirm/suite_clean.txt "$OUT/suite_patched.txt" >/dev/null; then sd=same; else sd=differs; fi
+  if diff -q <(grep -v "::TestSQL " /tmp/confirm/suite_clean.txt) <(grep -v "::TestSQL " "$OUT/suite_patched.txt") >/dev/null; then sd=same; else sd=differs; fi
 else dp=-1; sd=na; fi
 cp "$SRC/patch.diff" "$OUT/patch.diff"
 cp "$SRC"/demo.sh "$SRC"/*_test.go "$SRC"/*.go "$OUT/" 2>/dev/null
